@@ -215,7 +215,94 @@ def lits_of(body, block, facts):
             continue
         out.append(l)
     out = [l for l in out if not (l.kind == "flag" and l.block in explained)]
+    out += expand_predicates(out, facts, body)
     body._cache[key] = out
+    return out
+
+
+_EXPANDING = []
+
+
+def capture_term(body, i, facts):
+    """term (in the parent's frame) of the i-th captured variable of closure `body`, or None"""
+    pb = facts.body(body.direct_parent or body.parent) if body.kind == "closure" else None
+    if pb is None:
+        return None
+    du = du_of(pb)
+    for blk in pb.blocks:
+        for st in blk.stmts:
+            if st.kind == "assign" and st.rv.kind == "agg" and st.rv.j.get("agg") == "closure" and st.rv.j.get("closure") == body.path:
+                ops = st.rv.operands()
+                if i < len(ops):
+                    return du.operand_term(ops[i], 16)
+    return None
+
+
+def _pred_target(t, facts, body=None):
+    """a call term that invokes a bool predicate defined in the crate: (body, parameter mapping) or (None, None).
+    Forms: a private/any in-repo `fn .. -> bool`, and a local closure called by name (`let ok = |x| ..; if ok(a) {..}`)."""
+    if t[0] != "call":
+        return None, None
+    n = callee_name(t)
+    if n in ("call", "call_mut", "call_once") and len(t[2]) >= 2:
+        a0 = t[2][0]
+        hops = 0
+        while hops < 20 and a0[0] in ("ref", "deref", "cast", "var"):
+            hops += 1
+            a0 = a0[3] if a0[0] == "var" else a0[1]
+        if a0[0] == "upvar" and body is not None:
+            # a predicate closure captured by the closure we are in: look it up in the parent's frame
+            ct = capture_term(body, a0[1], facts)
+            hops = 0
+            while ct is not None and hops < 20 and ct[0] in ("ref", "deref", "cast", "var"):
+                hops += 1
+                ct = ct[3] if ct[0] == "var" else ct[1]
+            if ct is not None:
+                a0 = ct
+        if a0[0] != "closure":
+            return None, None
+        cb = facts.body(a0[1])
+        if cb is None or cb.local_ty(0) != "bool":
+            return None, None
+        tup = a0_ = t[2][1]
+        while tup[0] == "var":
+            tup = tup[3]
+        mapping = {}
+        if tup[0] == "tuple":
+            for i, e in enumerate(tup[1]):
+                mapping[2 + i] = e
+        for i, cap in enumerate(a0[2] or []):
+            mapping[("upvar", i)] = cap
+        return cb, mapping
+    if t[4] is None:
+        return None, None
+    tb = facts.body(t[1])
+    if tb is None or not tb.in_repo() or tb.kind == "closure" or tb.local_ty(0) != "bool" or len(tb.blocks) > 120 or tb.impl_trait is not None:
+        return None, None
+    return tb, {i + 1: a for i, a in enumerate(t[2])}
+
+
+def expand_predicates(lits, facts, body=None):
+    """literals that hold because a crate-defined bool predicate (function or local closure) answered `truth`: what is common
+    to every site where the predicate produces that answer, in the caller's terms"""
+    from .defuse import subst
+    out = []
+    for l in lits:
+        if l.kind != "call" or l.truth is None:
+            continue
+        tb, mapping = _pred_target(l.term, facts, body)
+        if tb is None or tb.path in _EXPANDING or len(_EXPANDING) > 3:
+            continue
+        _EXPANDING.append(tb.path)
+        try:
+            inner = closure_result_lits(tb, facts, l.truth)
+        finally:
+            _EXPANDING.pop()
+        for pl in inner:
+            n = Lit(pl.kind, subst(pl.term, mapping), pl.truth, pl.variants, l.block, pl.raw, pl.value, pl.adt)
+            n.edge = l.edge
+            n.implied = True
+            out.append(n)
     return out
 
 
@@ -252,7 +339,9 @@ def closure_result_lits(cb, facts, want=True):
             if callinfo is None:
                 return []
             kind_, ct, neg = callinfo
-            ls.append(Lit(kind_, ct, truth=(want != neg), block=blk))
+            rl = Lit(kind_, ct, truth=(want != neg), block=blk)
+            ls.append(rl)
+            ls += expand_predicates([rl], facts, cb)
         per_site.append(ls)
     if not per_site:
         return []
